@@ -81,6 +81,26 @@ CHECKS = {
         'aggregates COUNT and SUM. HashMap iteration order is unspecified: rows are compared as a set unless ORDER BY is present. parse_group_by and the '
         'grouping values written by check_file are not covered here (parser: C10 driver).',
    technique=TECH),
+ 'C17': dict(
+   level='model_checking', design_ref='DESIGN.md §5 C17',
+   text='The real main::exec_search -> Searcher::new -> list_search_results -> visit_dir (and, in the pipe family, the real check_file) run symbolically from MIR over '
+        'the abstract file system with fault variables: directories that cannot be listed (incl. the roots), entries whose type cannot be read, paths that cannot be '
+        'canonicalised. z3 decides on every path that the rows are exactly the entries outside failed directories, that the status is 1 iff a failure was hit and the '
+        'failing path is named. Pipe family: every write to stdout (header, rows, separators, footer, print!) may fail with BrokenPipe once the consumer has closed the '
+        'pipe (monotone; LineWriter flush model): no path may end in a panic and the status is 0 or 1 — streamed, ordered, aggregate and grouped result paths.',
+   note=TRUST + 'Assumed: abstract file system as in C01; Parser::parse summarised; stdout = LineWriter over a pipe (a write fails iff it must reach a closed pipe); '
+        'real EPIPE/SIGPIPE delivery and panics inside std are outside. Content readers (hashes, line_count ...) returning empty values on unreadable files are not '
+        'covered by this check. Bounds: 4/5 nodes (faults), 3 nodes (pipe). Replays: mode-000 directories searched under setpriv uid 65534; `| head -c N` for the pipe.',
+   technique=TECH),
+ 'C19': dict(
+   level='model_checking', design_ref='DESIGN.md §5 C19',
+   text='The archive branch of the real walker (through the real exec_search) is executed symbolically from MIR: every file may be a zip with 0..2 members, '
+        'ZipArchive::new may fail (corrupt archive), single members may fail to open; z3 decides that every member of every readable archive in the window is reported '
+        'exactly once, corrupt archives and unreadable members are skipped without an error status, ordinary rows are exactly those of the run without `archives`, '
+        'and (family limit) that LIMIT counts members like entries. Counterexamples are replayed with real zip files (incl. members with an unsupported method).',
+   note=TRUST + 'Assumed: zip crate by contract (new / len / by_index); which names count as archives is a symbolic flag per file (extension test: C04); '
+        'member attributes (to_file_info and the file_info arms of get_field_value) are not covered by this check; check_file summarised. Bounds: 4/5 nodes, <= 2 members.',
+   technique=TECH),
 }
 REASON_TODO = 'check not built yet in this session (planned: see DESIGN.md §5); not claimed until it exists'
 NA = {}
